@@ -3,16 +3,248 @@
 From Coq Require Import List NArith Arith Bool Lia ZifyBool ZifyNat ZifyN.
 From LBZ Require Import Common.Bits Gen.Consts Gen.DecTabs Dec.Prog Dec.Format Dec.Sim Dec.Policies Safe.TreeModel Safe.TreeLemmas
                         Safe.RetrModel Safe.RetrChunk Safe.RetrInv Safe.RetrStepHdr Safe.RetrSpec.
+From LBZ Require Import Dec.Delta Dec.DecProofs.
 From LBZ Require Safe.SlideModel Safe.SlideProofs.
 Import ListNotations.
 Local Open Scope N_scope.
+
+(* ---- the stream only depends on v, w ---------------------------------------------------------------------- *)
+Lemma strm_frame c c' nx : c_v c' = c_v c -> c_w c' = c_w c -> strm c' nx = strm c nx.
+Proof. intros Ev Ew. unfold strm, bufq. rewrite Ev, Ew. reflexivity. Qed.
+
+(* TAKE(x, k) with the stream: c0 is the core the stream is stated for, c1 the core after the store *)
+Lemma take_st c k : buf_ok c -> 1 <= k -> k <= c_w c ->
+  exists x v', peek c k = XV x /\ x < 2 ^ k /\
+    forall c1, c_v c1 = c_v c -> c_w c1 = c_w c ->
+      dump c1 k = XV (set_c_w (set_c_v c1 v') (c_w c - k)) /\ buf_ok (set_c_w (set_c_v c1 v') (c_w c - k)) /\
+      forall c0 nx, c_v c0 = c_v c -> c_w c0 = c_w c ->
+        run (take (N.to_nat k)) (strm c0 nx) = Ok (x, strm (set_c_w (set_c_v c1 v') (c_w c - k)) nx).
+Proof.
+  intros (q & Hb) H1 H2. destruct (take_ok c q k Hb H1 H2) as (Ep & Hx & Hd).
+  exists (q / 2 ^ (c_w c - k)), ((c_v c * 2 ^ k) mod 2 ^ 64). split; [exact Ep|]. split; [exact Hx|].
+  intros c1 Ev Ew. destruct (Hd c1 Ev Ew) as (c' & Ed & -> & Hb'). split; [exact Ed|].
+  split; [exists (q mod 2 ^ (c_w c - k)); exact Hb'|].
+  intros c0 nx Ev0 Ew0. rewrite (strm_frame c c0 nx Ev0 Ew0).
+  apply (strm_take c q k _ nx Hb H2 Hb'). dcore c1. reflexivity.
+Qed.
+
+(* PEEK(k) with the stream *)
+Lemma peek_st c k : buf_ok c -> 1 <= k -> k <= c_w c ->
+  exists x, peek c k = XV x /\ x < 2 ^ k /\
+    forall c0 nx, c_v c0 = c_v c -> c_w c0 = c_w c -> exists tl, strm c0 nx = bits_msb (N.to_nat k) x ++ tl.
+Proof.
+  intros (q & Hb) H1 H2. destruct (take_ok c q k Hb H1 H2) as (Ep & Hx & Hd).
+  exists (q / 2 ^ (c_w c - k)). split; [exact Ep|]. split; [exact Hx|].
+  intros c0 nx Ev0 Ew0. destruct (Hd c eq_refl eq_refl) as (c' & Ed & E' & Hb').
+  exists (strm c' nx). rewrite (strm_frame c c0 nx Ev0 Ew0). apply (strm_split c q k c' nx Hb H2 Hb').
+  subst c'. dcore c. reflexivity.
+Qed.
+
+(* DUMP(k) with the stream *)
+Lemma dump_st c k : buf_ok c -> k <= c_w c ->
+  exists v', forall c1, c_v c1 = c_v c -> c_w c1 = c_w c ->
+    dump c1 k = XV (set_c_w (set_c_v c1 v') (c_w c - k)) /\ buf_ok (set_c_w (set_c_v c1 v') (c_w c - k)) /\
+    forall c0 nx, c_v c0 = c_v c -> c_w c0 = c_w c ->
+      strm (set_c_w (set_c_v c1 v') (c_w c - k)) nx = skipn (N.to_nat k) (strm c0 nx).
+Proof.
+  intros (q & Hb) H2. exists ((c_v c * 2 ^ k) mod 2 ^ 64). intros c1 Ev Ew.
+  destruct (dump_ok c1 q k (buf_is_frame c c1 q Ev Ew Hb) ltac:(lia)) as (c' & Ed & E' & Hb').
+  rewrite Ev, Ew in E'. subst c'. split; [exact Ed|]. split; [eexists; exact Hb'|].
+  intros c0 nx Ev0 Ew0. rewrite (strm_frame c c0 nx Ev0 Ew0).
+  rewrite Ew in Hb'.
+  rewrite (strm_split c q k _ nx Hb H2 Hb') by (dcore c1; reflexivity).
+  rewrite skipn_app, bits_msb_length, Nat.sub_diag. cbn [skipn].
+  rewrite skipn_all2 by (rewrite bits_msb_length; lia). reflexivity.
+Qed.
+
+(* goal: ... x <== peek cp k ;; c <== dump (store cp x) k ;; ...   with Hb0 : buf_ok c0, c0 having the v, w of cp;
+   Hr : what take k does on the stream *)
+Ltac takes Hb0 k x v' Hx Hb' Hr :=
+  let Ep := fresh "Ep" in let Hd := fresh "Hd" in let Ed := fresh "Ed" in
+  match goal with |- context [peek ?cp k] =>
+    destruct (take_st cp k) as (x & v' & Ep & Hx & Hd);
+    [ refine (buf_ok_frame _ _ eq_refl eq_refl Hb0) | rsa; lia | rsa; lia | ];
+    rewrite Ep; cbn [bindB];
+    match goal with |- context [dump ?c1 k] =>
+      destruct (Hd c1 eq_refl eq_refl) as (Ed & Hb' & Hr); rewrite Ed; cbn [bindB]; clear Ep Hd Ed
+    end
+  end.
 
 (* behind NEED(S_BWT_IDX) *)
 Lemma ref_bwt c f nx : J_bwt c -> buf_ok c -> 32 <= c_w c ->
   exists c', after_bwt_idx c = BNeed S_bitmap_big c' /\ R_big c' (d_rand c') (d_bwt_idx c') /\
              run (K_start f) (strm c nx) = run (K_big f (d_rand c') (d_bwt_idx c')) (strm c' nx).
 Proof.
-Abort.
+  intros HJ Hb Hw.
+  enough (H : match after_bwt_idx c with
+              | BNeed S_bitmap_big c' => R_big c' (d_rand c') (d_bwt_idx c') /\
+                   run (K_start f) (strm c nx) = run (K_big f (d_rand c') (d_bwt_idx c')) (strm c' nx)
+              | _ => False end).
+  { destruct (after_bwt_idx c) as [p c'|s c'|code c'|c'|ff]; try contradiction.
+    destruct s; try contradiction. exists c'. split; [reflexivity|exact H]. }
+  dcore c. unfold after_bwt_idx. unfold J_bwt, shape, tt0 in HJ. rsa.
+  takes Hb 1 rnd v1 Hrnd Hb1 Hr1. rsa.
+  takes Hb1 24 idx v2 Hidx Hb2 Hr2. rsa.
+  split.
+  - unfold R_big, J_big, J_bwt, shape, tt0. rsa. repeat split; try apply HJ; assumption.
+  - unfold K_start. rewrite run_bind.
+    change (N.to_nat 1) with 1%nat in Hr1. rewrite Hr1 by reflexivity.
+    rewrite run_bind. change (N.to_nat 24) with 24%nat in Hr2. rewrite Hr2 by reflexivity. reflexivity.
+Qed.
+
+(* ---- bits of 16-bit words ---------------------------------------------------------------------------------- *)
+Lemma W16_pow : W16 = 2 ^ 16. Proof. reflexivity. Qed.
+
+(* bit 15 of a shifted 16-bit word *)
+Lemma shl_bit15 s a : (a <= 15)%nat -> N.testbit ((s * 2 ^ N.of_nat a) mod 2 ^ 16) 15 = testbit16 s a.
+Proof.
+  intro Ha. rewrite N.mod_pow2_bits_low by lia. rewrite N.mul_pow2_bits_high by lia. unfold testbit16.
+  f_equal. lia.
+Qed.
+
+Lemma shl_step s a : ((s * 2 ^ N.of_nat a) mod 2 ^ 16 * 2) mod 2 ^ 16 = (s * 2 ^ N.of_nat (S a)) mod 2 ^ 16.
+Proof.
+  rewrite N.mul_mod_idemp_l by discriminate. rewrite Nat2N.inj_succ, N.pow_succ_r'. f_equal. lia.
+Qed.
+
+Lemma land_bit15 x : (N.land x 32768 =? 0) = negb (N.testbit x 15).
+Proof.
+  change 32768 with (2 ^ 15). destruct (N.testbit x 15) eqn:E; cbn [negb].
+  - apply N.eqb_neq. intro H. assert (T : N.testbit (N.land x (2 ^ 15)) 15 = true).
+    { rewrite N.land_spec, E, N.pow2_bits_true. reflexivity. }
+    rewrite H in T. rewrite N.bits_0 in T. discriminate.
+  - apply N.eqb_eq. apply N.bits_inj_0. intro m. rewrite N.land_spec, N.pow2_bits_eqb.
+    destruct (N.eqb_spec 15 m) as [<-|]; [rewrite E; reflexivity|apply andb_false_r].
+Qed.
+
+Lemma topbits_map : forall n s a, (a + n <= 16)%nat ->
+  topbits n ((s * 2 ^ N.of_nat a) mod 2 ^ 16) = map (testbit16 s) (seq a n).
+Proof.
+  induction n as [|n IH]; intros s a H; [reflexivity|].
+  cbn [topbits seq map]. rewrite shl_bit15 by lia. f_equal.
+  rewrite W16_pow, shl_step. apply IH. lia.
+Qed.
+
+Lemma topbits16_map s : s < 2 ^ 16 -> topbits 16 s = map (testbit16 s) (seq 0 16).
+Proof.
+  intro H. rewrite <- (topbits_map 16 s 0) by lia. f_equal.
+  change (2 ^ N.of_nat 0) with 1. rewrite N.mul_1_r, N.mod_small by exact H. reflexivity.
+Qed.
+
+Lemma used_from_map (g : nat -> bool) base : forall n a,
+  SlideModel.used_from (base + N.of_nat a) (map g (seq a n)) = map (fun t => base + N.of_nat t) (filter g (seq a n)).
+Proof.
+  induction n as [|n IH]; intro a; [reflexivity|].
+  cbn [seq map filter SlideModel.used_from].
+  replace (base + N.of_nat a + 1) with (base + N.of_nat (S a)) by lia. rewrite IH.
+  destruct (g a); reflexivity.
+Qed.
+
+Lemma used_from_app : forall f1 f2 j,
+  SlideModel.used_from j (f1 ++ f2) = SlideModel.used_from j f1 ++ SlideModel.used_from (j + N.of_nat (length f1)) f2.
+Proof.
+  induction f1 as [|b r IH]; intros f2 j; cbn [app SlideModel.used_from length].
+  - replace (j + N.of_nat 0) with j by lia. reflexivity.
+  - rewrite IH. replace (j + 1 + N.of_nat (length r)) with (j + N.of_nat (S (length r))) by lia.
+    destruct b; reflexivity.
+Qed.
+
+(* the bytes of range i *)
+Lemma used_of_range flags i s : length flags = (16 * i)%nat -> s < 2 ^ 16 ->
+  SlideModel.used_of (flags ++ topbits 16 s) = SlideModel.used_of flags ++ range_bytes i s.
+Proof.
+  intros Hl Hs. unfold SlideModel.used_of. rewrite used_from_app. f_equal.
+  rewrite topbits16_map by exact Hs. rewrite Hl.
+  replace (0 + N.of_nat (16 * i)) with (16 * N.of_nat i + N.of_nat 0) by lia.
+  rewrite used_from_map. reflexivity.
+Qed.
+
+Lemma range_bytes_0 i : range_bytes i 0 = [].
+Proof. reflexivity. Qed.
+
+(* ---- the residual programs ---------------------------------------------------------------------------------- *)
+(* range i+1 is skipped *)
+Lemma K_inner_skip f rnd idx big i used sm s : (i < 15)%nat -> testbit16 big (S i) = false ->
+  run (K_inner f rnd idx big i used sm) s = run (K_inner f rnd idx big (S i) (used ++ range_bytes i sm) 0) s.
+Proof.
+  intros Hi Hb. unfold K_inner. replace (15 - i)%nat with (S (15 - S i)) by lia.
+  cbn [read_smalls]. rewrite Hb. rewrite !run_bind.
+  destruct (run (read_smalls big (S (S i)) (15 - S i)) s) as [[rest r]|e]; [|reflexivity].
+  rewrite range_bytes_0. cbn [app]. rewrite <- app_assoc. reflexivity.
+Qed.
+
+(* range i+1 is present: its 16 bits are read *)
+Lemma K_inner_take f rnd idx big i used sm s sm' r : (i < 15)%nat -> testbit16 big (S i) = true ->
+  run (take 16) s = Ok (sm', r) ->
+  run (K_inner f rnd idx big i used sm) s = run (K_inner f rnd idx big (S i) (used ++ range_bytes i sm) sm') r.
+Proof.
+  intros Hi Hb Ht. unfold K_inner. replace (15 - i)%nat with (S (15 - S i)) by lia.
+  cbn [read_smalls]. rewrite Hb. rewrite !run_bind. rewrite Ht. rewrite !run_bind.
+  destruct (run (read_smalls big (S (S i)) (15 - S i)) r) as [[rest r']|e]; [|reflexivity].
+  cbn [run]. fold (range_bytes (S i) sm'). rewrite <- app_assoc. reflexivity.
+Qed.
+
+(* all ranges done *)
+Lemma K_inner_last f rnd idx big used sm s :
+  run (K_inner f rnd idx big 15 used sm) s = run (K_post f rnd idx (used ++ range_bytes 15 sm)) s.
+Proof. unfold K_inner. cbn [Nat.sub read_smalls bind]. rewrite app_nil_r. reflexivity. Qed.
+
+(* ---- one unary-coded selector against sel_table ------------------------------------------------------------- *)
+Lemma sel_table_fz x : x < 64 -> nth (N.to_nat x) sel_table 0 = first_zero x.
+Proof.
+  intro H. pose proof sel_table_ok_true as A. unfold sel_table_ok in A. rewrite forallb_forall in A.
+  specialize (A (N.to_nat x)). rewrite in_seq in A. specialize (A ltac:(lia)). rewrite N2Nat.id in A.
+  apply N.eqb_eq in A. exact A.
+Qed.
+
+Lemma unary6 x n rest : (n <= 6)%nat ->
+  run (read_unary n 0) (bits_msb 6 x ++ rest) =
+  if first_zero x <=? N.of_nat n then Ok (first_zero x - 1, skipn (N.to_nat (first_zero x)) (bits_msb 6 x ++ rest))
+  else Err ErrSelector.
+Proof.
+  intro Hn. unfold first_zero. cbn [bits_msb app]. 
+  change (N.of_nat 5) with 5. change (N.of_nat 4) with 4. change (N.of_nat 3) with 3. change (N.of_nat 2) with 2.
+  change (N.of_nat 1) with 1. change (N.of_nat 0) with 0.
+  destruct n as [|[|[|[|[|[|[|n]]]]]]]; [| | | | | | | lia];
+  destruct (N.testbit x 5); try reflexivity;
+  destruct (N.testbit x 4); try reflexivity;
+  destruct (N.testbit x 3); try reflexivity;
+  destruct (N.testbit x 2); try reflexivity;
+  destruct (N.testbit x 1); try reflexivity;
+  destruct (N.testbit x 0); reflexivity.
+Qed.
+
+(* the selector loop with the first selector read *)
+Lemma K_sels_first f h s v r : 1 <= h_ns h ->
+  run (read_unary (N.to_nat (h_nt h)) 0) s = Ok (v, r) ->
+  run (K_sels f h []) s = run (K_sels f h [v]) r.
+Proof.
+  intros Hns Hu. unfold K_sels. cbn [length].
+  replace (N.to_nat (h_ns h) - 0)%nat with (S (N.to_nat (h_ns h) - 1)) by lia.
+  cbn [repeat_prog]. rewrite !run_bind. rewrite Hu. rewrite !run_bind.
+  destruct (run (repeat_prog (N.to_nat (h_ns h) - 1) (read_unary (N.to_nat (h_nt h)) 0)) r) as [[more r']|e]; reflexivity.
+Qed.
+
+Lemma K_sels_fail f h s e : 1 <= h_ns h ->
+  run (read_unary (N.to_nat (h_nt h)) 0) s = Err e -> run (K_sels f h []) s = Err e.
+Proof.
+  intros Hns Hu. unfold K_sels. cbn [length].
+  replace (N.to_nat (h_ns h) - 0)%nat with (S (N.to_nat (h_ns h) - 1)) by lia.
+  cbn [repeat_prog]. rewrite !run_bind. rewrite Hu. reflexivity.
+Qed.
+
+(* K_post step by step *)
+Lemma K_post_empty f rnd idx used s : length used = 0%nat -> run (K_post f rnd idx used) s = Err ErrBitmap.
+Proof. intro H. unfold K_post. rewrite H. reflexivity. Qed.
+
+Lemma K_post_nt f rnd idx used s nt r : length used <> 0%nat -> run (take 3) s = Ok (nt, r) ->
+  run (K_post f rnd idx used) s =
+  run (_ <- guard ((2 <=? nt) && (nt <=? 6)) ErrTrees ;; ns <- take 15 ;; _ <- guard (negb (ns =? 0)) ErrGroups ;;
+       K_sels f (mk_hdr rnd idx used nt ns) []) r.
+Proof.
+  intros H Ht. unfold K_post. destruct (N.eqb_spec (N.of_nat (length used)) 0) as [E|E]; [lia|].
+  cbn [negb guard bind]. rewrite run_bind, Ht. reflexivity.
+Qed.
 
 (* from the entry of the inner bitmap loop of range i to the next NEED *)
 Lemma ref_inner : forall n c rnd idx big i used f nx, R_small c rnd idx big i used -> buf_ok c -> (16 - i <= n)%nat -> 16 <= c_w c ->
@@ -28,7 +260,151 @@ Lemma ref_inner : forall n c rnd idx big i used f nx, R_small c rnd idx big i us
   | _ => True
   end.
 Proof.
-Abort.
+  induction n as [|n IH]; intros c rnd idx big i used f nx HR Hb Hn Hw Hd.
+  - destruct HR as (flags & (_ & Hi & _) & _). lia.
+  - destruct HR as (flags & HJ & Ernd & Eidx & Eused & Hbig16 & Ebig).
+    cbn [bitmap_from_inner].
+    destruct (inner_ok c i flags HJ) as (a' & alpha' & Ei & Hla & HF' & Hz). rewrite Ei. cbn [bindB].
+    destruct HJ as (HJ & Hi & Hj & Hlen & _ & Hs & Hbg).
+    remember (strm c nx) as S0 eqn:ES0.
+    unfold with_bitmap. dcore c. unfold J_big, J_bwt, shape, tt0 in HJ. rsa.
+    cbn [SlideModel.s_rows SlideModel.s_slide] in *.
+    destruct HJ as (((S1 & S2 & S3 & S4 & S5 & S6 & S7) & T1 & T2) & R1 & R2).
+    subst rnd idx used.
+    assert (ES : forall c0, c_v c0 = xv -> c_w c0 = xw -> strm c0 nx = S0).
+    { intros c0 E1 E2. subst S0. apply strm_frame; assumption. }
+    pose proof (used_of_range flags i xsmall Hlen Hs) as Hur.
+    assert (Ebig2 : (xbig * 2) mod W16 = (big * 2 ^ N.of_nat (S i)) mod 2 ^ 16) by (rewrite Ebig, W16_pow; apply shl_step).
+    rewrite Ebig2.
+    assert (Hbig : (big * 2 ^ N.of_nat (S i)) mod 2 ^ 16 < 2 ^ 16) by (apply N.mod_lt; discriminate).
+    assert (Hfl : length (flags ++ topbits 16 xsmall) = (16 * S i)%nat) by (rewrite app_length, topbits_length; lia).
+    destruct (N.ltb_spec (16 * N.of_nat (S i)) 256) as [Hlt|Hge].
+    + rewrite land_bit15, shl_bit15 by lia. rewrite negb_involutive.
+      destruct (testbit16 big (S i)) eqn:Etb.
+      * (* TAKE(rs->small, 16); NEED(S_BITMAP_SMALL) *)
+        takes Hb 16 sm v1 Hsm Hb1 Hr1. rsa.
+        exists (S i), (SlideModel.used_of flags ++ range_bytes i xsmall). split.
+        -- exists (flags ++ topbits 16 xsmall).
+           unfold J_bm, J_big, J_bwt, shape, tt0, filled. rsa. cbn [SlideModel.s_slide].
+           repeat apply conj; try assumption; try lia; try reflexivity. symmetry; exact Hur.
+        -- apply K_inner_take; [lia|exact Etb|]. subst S0. apply Hr1; reflexivity.
+      * (* next range skipped: small = 0 *)
+        match goal with |- context [bitmap_from_inner n ?c2] =>
+          assert (HR2 : R_small c2 xrand xidx big (S i) (SlideModel.used_of flags ++ range_bytes i xsmall));
+          [|assert (Hb2 : buf_ok c2) by (refine (buf_ok_frame _ _ eq_refl eq_refl Hb));
+            specialize (IH c2 xrand xidx big (S i) (SlideModel.used_of flags ++ range_bytes i xsmall) f nx HR2 Hb2 ltac:(lia))]
+        end.
+        { exists (flags ++ topbits 16 xsmall).
+          unfold J_bm, J_big, J_bwt, shape, tt0, filled. rsa. cbn [SlideModel.s_slide].
+          repeat apply conj; try assumption; try lia; try reflexivity. symmetry; exact Hur. }
+        rsa. specialize (IH Hw).
+        assert (Hd2 : 32 <= xw \/ alpha' = 0 /\ 0 = 0).
+        { destruct Hd as [H|[E1 E2]]; [left; exact H|right; split; [apply Hz; assumption|reflexivity]]. }
+        specialize (IH Hd2).
+        rewrite (K_inner_skip f xrand xidx big i (SlideModel.used_of flags) xsmall S0) by (lia || exact Etb).
+        rewrite ES in IH by reflexivity.
+        match goal with |- context [bitmap_from_inner n ?c2] => destruct (bitmap_from_inner n c2) as [p c'|s c'|code c'|c'|ff] end;
+          try exact IH.
+    + (* all 16 ranges done *)
+      assert (Ei15 : i = 15%nat) by lia. subst i.
+      rewrite K_inner_last.
+      unfold post_bitmap. cbv zeta. rsa.
+      destruct HF' as (junk' & Hjl' & HF').
+      assert (Hl256 : (length (flags ++ topbits 16 xsmall) <= 256)%nat) by lia.
+      destruct (fill_alpha _ _ _ _ Hjl' Hl256 HF') as (Ha' & _).
+      pose proof (SlideProofs.used_from_length (flags ++ topbits 16 xsmall) 0) as Hu.
+      fold (SlideModel.used_of (flags ++ topbits 16 xsmall)) in Hu.
+      set (used' := SlideModel.used_of flags ++ range_bytes 15 xsmall) in *.
+      destruct (N.eqb_spec alpha' 0) as [Ez|Hnz].
+      { exists ErrBitmap. apply K_post_empty. rewrite Hur in Ha'. lia. }
+      assert (Hw32 : 32 <= xw).
+      { destruct Hd as [H|[E1 E2]]; [exact H|]. exfalso. apply Hnz. apply Hz; assumption. }
+      rewrite add32_small by (rewrite W32_val; lia).
+      takes Hb 3 nt v1 Hnt Hb1 Hr1. rsa.
+      rewrite (K_post_nt f xrand xidx used' S0 nt _ ltac:(rewrite Hur in Ha'; lia) ltac:(subst S0; apply Hr1; reflexivity)).
+      rewrite run_bind.
+      destruct ((nt <? MIN_TREES) || (MAX_TREES <? nt)) eqn:Ent.
+      { exists ErrTrees. change MIN_TREES with 2 in Ent. change MAX_TREES with 6 in Ent.
+        replace ((2 <=? nt) && (nt <=? 6)) with false by lia. reflexivity. }
+      apply orb_false_elim in Ent. destruct Ent as [Ent1 Ent2]. apply N.ltb_ge in Ent1, Ent2.
+      change MIN_TREES with 2 in Ent1. change MAX_TREES with 6 in Ent2.
+      replace ((2 <=? nt) && (nt <=? 6)) with true by lia. cbn [guard run].
+      rewrite run_bind.
+      takes Hb1 15 ns v2 Hns Hb2 Hr2. rsa.
+      change (N.to_nat 15) with 15%nat in Hr2. rewrite Hr2 by reflexivity. rewrite run_bind.
+      destruct (N.eqb_spec ns 0) as [Ens|Hns0].
+      { exists ErrGroups. reflexivity. }
+      cbn [negb guard run].
+      unfold sel_head. rsa.
+      destruct (N.ltb_spec 0 ns) as [Hns1|Hns1]; [|lia].
+      match goal with |- context [peek ?cp 6] =>
+        destruct (peek_st cp 6) as (x & Ep & Hx & Hst);
+          [refine (buf_ok_frame _ _ eq_refl eq_refl Hb2)|rsa; lia|rsa; lia|] end.
+      rewrite Ep. cbn [bindB]. change (2 ^ 6) with 64 in Hx.
+      rewrite xget_ok by (rewrite sel_table_len; lia). cbn [bindB].
+      pose proof (sel_table_range x Hx) as Hk. pose proof (sel_table_fz x Hx) as Ek.
+      set (k := nth (N.to_nat x) sel_table 0) in *.
+      set (h := mk_hdr xrand xidx used' nt ns).
+      match goal with |- context [run (K_sels f h []) (strm ?c0 nx)] =>
+        destruct (Hst c0 nx eq_refl eq_refl) as (tl & Etl);
+        assert (Eun : run (read_unary (N.to_nat (h_nt h)) 0) (strm c0 nx) =
+                      if k <=? nt then Ok (k - 1, skipn (N.to_nat k) (strm c0 nx)) else Err ErrSelector)
+      end.
+      { rewrite Etl. change (N.to_nat 6) with 6%nat. cbn [h h_nt]. rewrite unary6 by lia. rewrite <- Ek.
+        rewrite N2Nat.id. reflexivity. }
+      destruct (N.ltb_spec nt k) as [Hkt|Hkt].
+      { exists ErrSelector. apply K_sels_fail; [cbn [h h_ns]; lia|]. rewrite Eun.
+        destruct (N.leb_spec k nt); [lia|reflexivity]. }
+      destruct (N.leb_spec k nt) as [_|]; [|lia].
+      rewrite xset_ok by lia. cbn [bindB]. rsa.
+      match goal with |- context [dump ?cp k] =>
+        destruct (dump_st cp k) as (v3 & Hd3);
+          [refine (buf_ok_frame _ _ eq_refl eq_refl Hb2)|rsa; lia|];
+        destruct (Hd3 cp eq_refl eq_refl) as (Ed & Hb3 & Hsk) end.
+      rewrite Ed. cbn [bindB]. rsa.
+      exists h, [k - 1]. split.
+      * exists (flags ++ topbits 16 xsmall). split; [|split].
+        -- unfold J_selN, J_hdr, J_big, J_bwt, shape, tt0, filled, sels_ok, sel. rsa. cbn [SlideModel.s_slide].
+           repeat apply conj; try assumption; try lia.
+           ++ rewrite upd_length. exact S1.
+           ++ exists junk'. split; [exact Hjl'|]. rewrite <- Ha'. exact HF'.
+           ++ intros j Hj0. assert (j = 0) by lia. subst j. rewrite nth_upd_same by lia.
+              rewrite sub32_small by (rewrite ?W32_val; lia). rewrite N.mod_small by (change W8 with 256; lia). lia.
+        -- unfold R_hdr, J_hdr, J_big, J_bwt, shape, tt0, filled. rsa. cbn [SlideModel.s_slide h h_used h_rnd h_idx h_nt h_ns].
+           repeat apply conj; try assumption; try lia; try reflexivity.
+           ++ rewrite upd_length. exact S1.
+           ++ exists junk'. split; [exact Hjl'|]. rewrite <- Ha'. exact HF'.
+           ++ symmetry; exact Hur.
+        -- rsa. change (N.to_nat 0 + 1)%nat with 1%nat.
+           destruct xsel as [|s0 xsel']; [cbn in S1; lia|]. cbn [N.to_nat upd firstn].
+           rewrite sub32_small by (rewrite ?W32_val; lia). rewrite N.mod_small by (change W8 with 256; lia). reflexivity.
+      * apply K_sels_first; [cbn [h h_ns]; lia|]. rewrite Eun. f_equal. f_equal. symmetry. apply Hsk; reflexivity.
+Qed.
+
+(* behind the 16 bits of big: range 0 present / skipped *)
+Lemma K_smalls_take_gen f rnd idx big s sm r n : testbit16 big 0 = true -> run (take 16) s = Ok (sm, r) ->
+  run (K_smalls f rnd idx big 0 (S n) []) s =
+  run (rest <- read_smalls big 1 n ;; K_post f rnd idx ([] ++ range_bytes 0 sm ++ rest)) r.
+Proof.
+  intros Hb Ht. unfold K_smalls. cbn [read_smalls]. rewrite Hb. rewrite !run_bind. rewrite Ht. rewrite !run_bind.
+  destruct (run (read_smalls big 1 n) r) as [[rest r']|e]; reflexivity.
+Qed.
+
+Lemma K_smalls_skip_gen f rnd idx big s n : testbit16 big 0 = false ->
+  run (K_smalls f rnd idx big 0 (S n) []) s =
+  run (rest <- read_smalls big 1 n ;; K_post f rnd idx ([] ++ range_bytes 0 0 ++ rest)) s.
+Proof.
+  intros Hb. unfold K_smalls. cbn [read_smalls]. rewrite Hb. rewrite !run_bind.
+  destruct (run (read_smalls big 1 n) s) as [[rest r']|e]; reflexivity.
+Qed.
+
+Lemma K_smalls_take f rnd idx big s sm r : testbit16 big 0 = true -> run (take 16) s = Ok (sm, r) ->
+  run (K_smalls f rnd idx big 0 16 []) s = run (K_inner f rnd idx big 0 [] sm) r.
+Proof. intros Hb Ht. rewrite (K_smalls_take_gen f rnd idx big s sm r 15 Hb Ht). reflexivity. Qed.
+
+Lemma K_smalls_skip f rnd idx big s : testbit16 big 0 = false ->
+  run (K_smalls f rnd idx big 0 16 []) s = run (K_inner f rnd idx big 0 [] 0) s.
+Proof. intros Hb. rewrite (K_smalls_skip_gen f rnd idx big s 15 Hb). reflexivity. Qed.
 
 (* behind NEED(S_BITMAP_BIG) *)
 Lemma ref_big c rnd idx f nx : R_big c rnd idx -> buf_ok c -> 32 <= c_w c ->
@@ -40,4 +416,32 @@ Lemma ref_big c rnd idx f nx : R_big c rnd idx -> buf_ok c -> 32 <= c_w c ->
   | _ => True
   end.
 Proof.
-Abort.
+  intros (HJ & Ernd & Eidx) Hb Hw. dcore c. unfold after_bitmap_big. unfold J_big, J_bwt, shape, tt0 in HJ. rsa.
+  destruct HJ as (((S1 & S2 & S3 & S4 & S5 & S6 & S7) & T1 & T2) & R1 & R2).
+  subst rnd idx.
+  takes Hb 16 big v1 Hbig Hb1 Hr1. cbv zeta. rsa.
+  unfold K_big. rewrite run_bind. change (N.to_nat 16) with 16%nat in Hr1. rewrite Hr1 by reflexivity.
+  match goal with |- context [bitmap_from_inner 16 ?c2] =>
+    assert (HR2 : forall sm, sm < 2 ^ 16 -> R_small (set_r_small c2 sm) xrand xidx big 0 []) end.
+  { intros sm Hsm. exists []. unfold J_bm, J_big, J_bwt, shape, tt0, filled. rsa.
+    repeat apply conj; try assumption; try lia; try reflexivity.
+    exists (SlideModel.s_slide xslide). split; [exact S6|reflexivity]. }
+  rewrite land_bit15. rewrite negb_involutive. change (N.testbit big 15) with (testbit16 big 0).
+  destruct (testbit16 big 0) eqn:Etb.
+  - takes Hb1 16 sm v2 Hsm Hb2 Hr2. rsa.
+    exists big, 0%nat, []. split; [exact (HR2 sm Hsm)|].
+    apply K_smalls_take; [exact Etb|]. apply Hr2; reflexivity.
+  - rewrite K_smalls_skip by exact Etb.
+    match goal with |- context [bitmap_from_inner 16 ?c2] =>
+      pose proof (ref_inner 16 c2 xrand xidx big 0%nat [] f nx (HR2 0 ltac:(lia))
+                    (buf_ok_frame _ _ eq_refl eq_refl Hb1)) as H; rsa;
+      specialize (H ltac:(lia) ltac:(lia) (or_intror (conj eq_refl eq_refl)));
+      destruct (bitmap_from_inner 16 c2) as [p c'|s c'|code c'|c'|ff] end; try exact I.
+    + destruct s; try exact I.
+      destruct H as (i' & used' & A & B). exists big, i', used'. split; [exact A|exact B].
+    + exact H.
+Qed.
+
+Print Assumptions ref_bwt.
+Print Assumptions ref_inner.
+Print Assumptions ref_big.
